@@ -38,6 +38,9 @@ class FakeSock:
             raise socket.error(o[1] if o else errno.EAGAIN, 'try again')
         k = max(1, min(o[1], len(data)))
         self.sent.extend(bytes(data[:k]))
+        if k < len(data):
+            # a partial accept means the kernel's send buffer is now full: until the next wake-up further send() calls block
+            self.outcome = ('block', errno.EAGAIN)
         return k
 
 
